@@ -75,6 +75,12 @@ def run_script(args):
             if workload == "staggered" and i in (1, 3):
                 await sub()
             kinds = kind if isinstance(kind, tuple) else (kind,)
+            if kinds[0] in ("cancel1", "cancel2", "cancel3"):
+                # the caller of the first / second / third send of the workload is cancelled (in flight or still queued): invisible on the link
+                cid = prefix + int(kinds[0][-1])
+                if cid in r.tasks and not r.tasks[cid].done():
+                    await r.cancel(cid)
+                continue
             if kinds == ("silence",):
                 if await r.tick() is None:
                     continue
@@ -139,6 +145,17 @@ def run(ctx: Ctx):
                     continue
                 for wl, prefix in (("one", 0), ("three", 6), ("staggered", 7)):
                     yield (wl, prefix, list(script), (0x51, 11))
+        # the caller of a send is cancelled at every point of every short script (in flight, during a retransmission wait, while queued):
+        # the link goes on as if nothing had happened - above all, the next frame is not written while this one is unacknowledged
+        small = ("cover", "nak", "silence", "latecover", "error", "slowcover")
+        for n in range(1, 4 if ctx.quick else 5):
+            for script in itertools.product(small, repeat=n):
+                for pos in range(0, n + 1):
+                    for cn in ("cancel1", "cancel2"):
+                        if ctx.quick and n == 3 and (pos + len(script[0])) % 2:
+                            continue
+                        for wl, prefix in (("three", 6), ("staggered", 0)):
+                            yield (wl, prefix, list(script[:pos]) + [cn] + list(script[pos:]) + ["silence", "cover", "cover"], (0x51, 11))
         # adaptive-timeout ramps: answers arriving just in time drive the timeout up; silence afterwards must still fire within the bounds
         for up in range(1, 9):
             for tail in (("silence",), ("silence", "silence"), ("slownak", "silence"), ("silence", "slowcover", "silence"), ("latecover",)):
